@@ -14,13 +14,26 @@ Per case the runner reports
            place, restored afterwards)
   rb       {"loaded", "logic_ok", "regex_ok", "digests": [..], "exc", "stats"} from two fresh
            DefaultRulebookProvider instances (all text/compile caches cleared in between)
-           and the public annet.rulebook.get_rulebook
+           and the public annet.rulebook.get_rulebook; THEN real patch operations for that
+           hardware run in the same process (api._diff_and_patch / api.patch_from_pre /
+           Orderer.order_config on shipped before/after samples of the vendor, with a NON-EMPTY
+           RefTracker as a generator run with references builds it) and the rulebook is loaded
+           again: the public get_rulebook, a brand new provider (no cache cleared) - two more
+           digests.  "The same model always yields an equal rulebook", whatever happened
+           between the loads.  rb["ops"] says what was run.
+A case with "ops": false skips the patch operations and the two digests after them (the harness asks for them
+once per model string, not for every software-version shape).
+A case with "static": true is only parsed (hits / true / vendor): no permutations, no loads.
 """
 import hashlib
 import json
+import os
 import random
 import re
 import types
+import zlib
+from collections import OrderedDict as odict
+from types import SimpleNamespace
 
 from _common import main, setup_connectors
 
@@ -96,7 +109,7 @@ def digest(rb, stats) -> str:
     return hashlib.sha1(json.dumps(canon(rb, stats), sort_keys=False, default=str).encode()).hexdigest()
 
 
-def load_rulebooks(model, soft):
+def load_rulebooks(model, soft, ops=True):
     out = {"loaded": False, "logic_ok": False, "regex_ok": False, "digests": [], "exc": None, "stats": None}
     stats = {"regex": 0, "logic": 0, "bad_regex": [], "bad_logic": []}
     try:
@@ -109,15 +122,109 @@ def load_rulebooks(model, soft):
             digs.append(digest(rb, st))
         st = {"regex": 0, "logic": 0, "bad_regex": [], "bad_logic": []}
         digs.append(digest(rb_mod.get_rulebook(HardwareView(model, soft)), st))
-        out["digests"] = digs
-        out["loaded"] = not stats.get("bad_shape", False)
-        out["logic_ok"] = not stats["bad_logic"] and stats["logic"] > 0
-        out["regex_ok"] = not stats["bad_regex"] and stats["regex"] > 0
-        out["stats"] = {"regex": stats["regex"], "logic": stats["logic"],
-                        "bad": (stats["bad_regex"] + stats["bad_logic"])[:3]}
+        out["digests"] = list(digs)
+        # between the loads: patches with references are built for this hardware; then the same model is loaded again
+        if not ops:
+            return finish_load(out, stats, digs)
+        out["ops"] = exercise(model, soft)
+        digs.append(digest(rb_mod.get_rulebook(HardwareView(model, soft)), {"regex": 0, "logic": 0, "bad_regex": [], "bad_logic": []}))
+        digs.append(digest(DefaultRulebookProvider().get_rulebook(HardwareView(model, soft)), {"regex": 0, "logic": 0, "bad_regex": [], "bad_logic": []}))
+        finish_load(out, stats, digs)
     except BaseException as e:  # noqa  (mako raises arbitrary exceptions, asserts included)
         out["exc"] = exc_enum(e)
     return out
+
+
+def finish_load(out, stats, digs):
+    out["digests"] = digs
+    out["loaded"] = not stats.get("bad_shape", False)
+    out["logic_ok"] = not stats["bad_logic"] and stats["logic"] > 0
+    out["regex_ok"] = not stats["bad_regex"] and stats["regex"] > 0
+    out["stats"] = {"regex": stats["regex"], "logic": stats["logic"],
+                    "bad": (stats["bad_regex"] + stats["bad_logic"])[:3]}
+    return out
+
+
+# ---- what happens between two loads in a long-lived process: patches are built ----------------
+
+_SAMPLES = {}
+GENERIC_NEW = {"system": {"host-name r1": {}}, "interface eth0": {"description x": {}, "mtu 9000": {}},
+               "policy P": {"term 1": {}}}
+
+
+class _RefUser:         # stands for a generator whose output refers to ...
+    pass
+
+
+class _RefDef:          # ... what this generator defines
+    pass
+
+
+def samples_for(vendor):
+    if "all" not in _SAMPLES:
+        try:
+            import corpus
+            _SAMPLES["all"] = corpus.samples(os.environ["ANNET_VERIF_REPO_ROOT"])
+        except BaseException:  # noqa
+            _SAMPLES["all"] = []
+    return [x for x in _SAMPLES["all"] if x["vendor"] == vendor]
+
+
+def to_odict(t):
+    return odict((k, to_odict(v)) for k, v in t.items())
+
+
+def ref_tracker_for(new):
+    """A RefTracker as annet.generators.run_partial_generators fills it: generator _RefUser (first half
+    of the top-level blocks of the device's new config) refers to generator _RefDef (second half)."""
+    from annet.reference import RefTracker
+    rows = list(new.items())
+    half = max(1, len(rows) // 2)
+    a, b = odict(rows[:half]), odict(rows[half:] or rows[:half])
+    rt = RefTracker()
+    rt.add(_RefUser, _RefDef)
+    rt.config(_RefUser, a)
+    rt.config(_RefDef, b)
+    return rt
+
+
+def exercise(model, soft):
+    """Real patch operations for this hardware, in this process, between two loads of its rulebook."""
+    from annet import api
+    from annet.annlib import patching as lib_patching
+    hw = HardwareView(model, soft)
+    vendor = hw.vendor
+    smp = samples_for(vendor)
+    picked = []
+    if smp:
+        k = zlib.crc32(model.encode()) % len(smp)
+        picked = [smp[k], smp[(k + 1) % len(smp)]]
+    jobs = [(to_odict(x["old"]), to_odict(x["new"]), x["name"]) for x in picked] + [(odict(), to_odict(GENERIC_NEW), "generic")]
+    ops = {"jobs": 0, "patched": 0, "raised": 0, "refs": 0, "names": []}
+    for old, new, name in jobs:
+        ops["jobs"] += 1
+        ops["names"].append(name)
+        rt = ref_tracker_for(new if new else old)
+        ops["refs"] += len(rt.configs())
+        try:                                        # the whole device job, references included
+            api._diff_and_patch(SimpleNamespace(hw=hw), old, new, None, None, False, ref_track=rt)
+            ops["patched"] += 1
+        except BaseException:  # noqa
+            ops["raised"] += 1
+        try:                                        # and the boundary function on its own, as api.patch / deploy call it
+            rb = rb_mod.get_rulebook(hw)
+            pre = lib_patching.make_pre(lib_patching.make_diff(old, new, rb, []))
+            api.patch_from_pre(pre, hw, rb, False, ref_track=rt)
+            ops["patched"] += 1
+        except BaseException:  # noqa
+            ops["raised"] += 1
+        try:
+            o = lib_patching.Orderer(rb_mod.get_rulebook(hw)["ordering"], vendor)
+            o.ref_insert(rt)
+            o.order_config(new)
+        except BaseException:  # noqa
+            ops["raised"] += 1
+    return ops
 
 
 def vendor_of(model, soft):
@@ -151,6 +258,11 @@ def one(case, rows, perms):
         res["true"] = None
         res["exc"] = exc_enum(e)
     res["vendor"] = vendor_of(model, soft)
+    if case.get("static"):
+        res["perm"] = []
+        res["rb"] = {"loaded": False, "logic_ok": False, "regex_ok": False, "digests": [], "exc": None, "stats": None,
+                     "skipped": True}
+        return res
     reg = registry_connector.get()
     orig = list(reg.vendors.items())
     names = [n for n, _ in orig]
@@ -171,7 +283,7 @@ def one(case, rows, perms):
     if perms:
         for order in (names, list(reversed(names))):
             res["perm"].append(staged_vendor(reg, dict(orig), order, model, soft))
-    res["rb"] = load_rulebooks(model, soft)
+    res["rb"] = load_rulebooks(model, soft, ops=case.get("ops", True))
     return res
 
 
